@@ -172,6 +172,7 @@ def base_pool(win, rich=False):
 # heuristics, fixed (no randomness), the same for every property.
 B_LENGTHS = [15, 16, 17, 31, 32, 33, 63, 64, 65, 127, 128, 129, 255, 256, 257]
 B_COUNTS = [7, 8, 9, 10, 15, 16, 17, 18, 31, 32, 33, 34]
+B_COUNTS_DEEP = [63, 64, 65, 127, 128, 129, 255, 256, 257]     # narrow counters: only a few shapes each
 RESERVED = ['CON', 'PRN', 'AUX', 'NUL'] + ['COM%d' % i for i in range(10)] + ['LPT%d' % i for i in range(10)]
 
 
@@ -209,6 +210,10 @@ def boundary_paths(win):
                     continue
                 body = s.join(comps)
                 out += [hd + body, hd + body + s + b'..', hd + body + s + b'..' + s + b'x', hd + body + s, hd + s.join(comps[:-1] + [b'..', comps[-1]])]
+    # 2b. very deep paths (counters stored in narrow integers, batched walks)
+    for k in B_COUNTS_DEEP:
+        comps = [b'd%d' % i for i in range(k)]
+        out.append((s0 if k % 2 else b'') + s0.join(comps))
     # 3. separator runs
     for r in range(2, 10):
         for s in sp:
@@ -252,7 +257,7 @@ def boundary_paths(win):
             out += [e * n, b'a' * n + e, b'd' + s0 + e * n + b'.' + e, b'x' * (n - 1) + e + s0 + b'y', e + b'.' + e * n]
     seen, res = set(), []
     for s in out:
-        if s not in seen and len(s) <= 1200:
+        if s not in seen and len(s) <= 1700:
             seen.add(s); res.append(s)
     return res
 
